@@ -8,3 +8,6 @@ import TeosVerif.Props.C09
 #print axioms Teos.C09.purge_never_early_never_others
 #print axioms Teos.C09.purge_cascades
 #print axioms Teos.C09.height_follows_chain
+#print axioms Teos.C09.nobody_outlives_expiry_plus_grace
+#print axioms Teos.C09.only_the_gatekeeper_moves_windows
+#print axioms Teos.C09.expiry_invariant_step
